@@ -4,6 +4,7 @@ package main
 import (
 	"encoding/json"
 	"fmt"
+	"strings"
 	"time"
 
 	"github.com/semafind/semadb/models"
@@ -49,6 +50,9 @@ func symbols() *sl.Symbols {
 		sl.Op{Name: "ins2(quick dog)", Kind: "ins", Ids: []int{2}, Docs: []sl.Doc{t(1)}},
 		sl.Op{Name: "ins3(stopwords)", Kind: "ins", Ids: []int{3}, Docs: []sl.Doc{t(2)}},
 		sl.Op{Name: "ins4,5", Kind: "ins", Ids: []int{4, 5}, Docs: []sl.Doc{t(3), t(4)}},
+		// a long document: one term 300 times (more than fits a byte), another 100 times
+		sl.Op{Name: "ins8(long: 300 x quick, 2 x zebra)", Kind: "ins", Ids: []int{8}, Docs: []sl.Doc{{prop: strings.Repeat("quick ", 300) + "zebra zebra"}}},
+		sl.Op{Name: "upd3(long: 256 x fox)", Kind: "upd", Ids: []int{3}, Docs: []sl.Doc{{prop: strings.Repeat("fox ", 256) + "dog"}}},
 		sl.Op{Name: "ins7(no text)", Kind: "ins", Ids: []int{7}, Docs: []sl.Doc{{"other": "quick"}}},
 		sl.Op{Name: "upd1(rewrite)", Kind: "upd", Ids: []int{1}, Docs: []sl.Doc{{prop: "lazy dog dog"}}},
 		sl.Op{Name: "upd1(same words twice)", Kind: "upd", Ids: []int{1}, Docs: []sl.Doc{{prop: "the quick brown fox the quick brown fox"}}},
@@ -156,6 +160,11 @@ func master(cfg *harness.Config, rep *harness.Report) {
 	} {
 		specs = append(specs, seqx.Spec{Name: be.name, Cfg: cfgT{be.cfg}, Alphabet: syms.Refs(alpha...), Depth: be.depth, Dedup: true, Starts: be.starts})
 	}
+	// long documents (a term more often than fits a byte): depth 2 over a reduced alphabet, warm and reopened
+	long := []string{"ins8(long: 300 x quick, 2 x zebra)", "upd3(long: 256 x fox)", "ins2(quick dog)", "upd1(rewrite)", "del2,4", "upd7(add text)"}
+	specs = append(specs,
+		seqx.Spec{Name: "bbolt/warm/long", Cfg: cfgT{sl.InstCfg{Backend: "bbolt", CacheSize: -1, Schema: schema(), Proxy: true}}, Alphabet: syms.Refs(long...), Depth: 2, Dedup: true, Starts: [][]any{{}, syms.Refs("ins1..6")}},
+		seqx.Spec{Name: "bbolt/reopen/long", Cfg: cfgT{sl.InstCfg{Backend: "bbolt", CacheSize: 0, ReopenEachOp: true, Schema: schema(), Proxy: true}}, Alphabet: syms.Refs(long...), Depth: 2, Dedup: true, Starts: [][]any{syms.Refs("ins1..6")}})
 	seqx.Explore(cfg, rep, p, specs)
 }
 
